@@ -85,6 +85,10 @@ impl<'ast, 'a> Visit<'ast> for Marker<'a> {
         if R9_METHODS.contains(&m.as_str()) && n.args.len() == 1 {
             let is_closure = matches!(n.args.first().unwrap(), syn::Expr::Closure(_));
             self.calls.push((m, br(n.method.span()), is_closure));
+        } else if m == "map_or" && n.args.len() == 2 {
+            // R9 for `Option::map_or(default, some_closure)` — when the second argument is a closure literal
+            let is_closure = matches!(n.args.iter().nth(1), Some(syn::Expr::Closure(_)));
+            self.calls.push((m, br(n.method.span()), is_closure));
         } else if m == "map_or_else" && n.args.len() == 2 {
             // R9 for `Option::map_or_else(default_closure, some_closure)` — only when both are closure literals
             let is_closure = n.args.iter().all(|a| matches!(a, syn::Expr::Closure(_)));
@@ -104,6 +108,7 @@ fn default_kind(m: &str) -> &'static str {
         "or_else" => "res",
         "map_ok" => "pollres",
         "map_or_else" => "opt",
+        "map_or" => "opt",
         _ => "res",
     }
 }
@@ -253,6 +258,24 @@ impl<'a> Pass<'a> {
                     return;
                 }
                 _ => die("unsupported", &format!("{}: R9 map_or_else needs two closure literals and kind opt", self.d.item)),
+            }
+        }
+        if meth == "map_or" {
+            // Option::map_or(d, f) == match self { Some(t) => f(t), None => d }   (std definition; `d` is evaluated eagerly
+            // in std — it must be a side-effect free expression, which is checked: literal / path / unary only)
+            let mut it = n.args.iter();
+            match (it.next(), it.next(), kind) {
+                (Some(dexp), Some(syn::Expr::Closure(fc)), "opt")
+                    if matches!(dexp, syn::Expr::Lit(_) | syn::Expr::Path(_) | syn::Expr::Unary(_)) =>
+                {
+                    let d = self.s(br(dexp.span())).to_string();
+                    let (fpats, fbody) = self.closure_parts(fc, meth);
+                    let p = fpats.first().cloned().unwrap_or_else(|| "_".to_string());
+                    let t = format!("(match {} {{ Some({}) => {}, None => {} }})", recv, p, fbody, d);
+                    self.edits.push(Edit { range: br(n.span()), text: t, rule: "R9" });
+                    return;
+                }
+                _ => die("unsupported", &format!("{}: R9 map_or needs a simple default and a closure literal", self.d.item)),
             }
         }
         let arg = n.args.first().unwrap();
